@@ -5,7 +5,8 @@
    callers, pinger and die body, every failure position. *)
 From Coq Require Import List NArith.
 From GM Require Import Base.Lts Codec.Packet Session.Store Client.Future Client.Client Client.ClientSpec
-  Client.ClientWitness Client.ClientInvCtl Client.ClientInvOwed Client.ClientInvHs Client.ClientC10.
+  Client.ClientWitness Client.ClientInvCtl Client.ClientInvOwed Client.ClientInvHs Client.ClientC10
+  Client.TraceScan Client.ClientScanProofs.
 Import ListNotations.
 Open Scope N_scope.
 
@@ -47,6 +48,24 @@ Print Assumptions C10_exactly_once_refuted.
 Theorem C10_exactly_once_partial : C10_exactly_once_partial_statement.
 Proof. exact exactly_once_partial. Qed.
 Print Assumptions C10_exactly_once_partial.
+
+(* the clause scanners run over every OBSERVED event sequence accept every trace the model accepts *)
+Theorem C10_scan_ack_sound : forall es s, run step init es = Some s ->
+  exists y, scan_ack YInit es = Some y /\ yrel y (k_ppc (k s)).
+Proof. exact scan_ack_accepted. Qed.
+Print Assumptions C10_scan_ack_sound.
+
+Theorem C10_scan_noack_sound : forall es s, run step init es = Some s -> scan_noack false es = true.
+Proof. exact scan_noack_accepted. Qed.
+Print Assumptions C10_scan_noack_sound.
+
+(* the scanner's handshake table is the model's; without a failed PUBCOMP write / failed delete it never
+   shows a second delivery *)
+Theorem C10_scan_exactly_once_sound : forall es s, run step init es = Some s ->
+  hs_tab (scan_hs es) = g_hs (g s) /\
+  (g_compfail (g s) = false -> g_delfail (g s) = false -> hs_twice (scan_hs es) = None).
+Proof. intros es s H. split; [exact (scan_hs_accepted es s H)|exact (scan_hs_once es s H)]. Qed.
+Print Assumptions C10_scan_exactly_once_sound.
 
 (* non-vacuity: the witnesses above are accepted traces that reach the states in question; a complete
    QoS 2 handshake in default mode with exactly one delivery: *)
